@@ -32,6 +32,10 @@ const (
 )
 
 func c10Rules(tier string) []Rule {
+	return append(c10RulesBase(tier), toleratesRules("C10")...)
+}
+
+func c10RulesBase(tier string) []Rule {
 	const (
 		qrec  = "(*tor.Queue).Reconcile"
 		fdel  = "(*tor.Queue).forceDelete"
